@@ -213,10 +213,12 @@ CHECKS['C11'] = {
 
 CHECKS['C10'] = {
     'level': 'other',
-    'technique': ('hybrid: deductive proof (own VC generator + z3) of reverse_line_mapping (arc-length inverse, all tables and samples) + bounded numeric contract of the real '
+    'technique': ('hybrid: deductive proof (own VC generator + z3) of reverse_line_mapping (arc-length inverse, all tables and samples) and of the band / width / frame slice of get_crop_inputs + bounded numeric contract of the real '
                   'crop engine on a finite grid of baselines (0.75 px tolerance, column spacing within 5%)'),
     'text': ('PROVED for all inputs: reverse_line_mapping returns the piecewise-linear inverse of the strictly increasing arc-length table at every sample (index safety, no '
-             'division by zero, termination of the search), so uniformly spaced samples give columns uniform ALONG the baseline.  '
+             'division by zero, termination of the search), so uniformly spaced samples give columns uniform ALONG the baseline; and, on the slice of get_crop_inputs that computes '
+             'them (re-extracted every run; rotation, interpolant and normals dropped), for all positive heights (list or float64 array), scales and target heights >= 2: row offsets '
+             'run linearly from -(ascender x scale) to +(descender x scale), width = int(length x target height / scaled line height), the caller\'s heights are not written.  '
              'BOUNDED numeric: coordinate map of the configured height, width = length x scale, columns uniform from first to last baseline point, rows linear from ascender to '
              'descender and perpendicular to the baseline, fast path == general path, shift equivariance, no blank fallback for non-degenerate baselines in orders 0/1/2; degenerate '
              'lines fall back to a blank image of the configured height, never an error - on integer baselines of 2..5 points x steps x slopes (within 60 degrees) x offsets x size '
